@@ -69,6 +69,33 @@ theorem C16_gate_yields_own_label (cfgLabel carried l : Bytes) (skip : Bool)
   · obtain ⟨h1, h2⟩ := h; rw [← h2]; exact h1.symm
   · exact h.2.symm
 
+/-- **C09 / C14 (streams).** A sealed stream is admitted only if it was sealed under an installed key with the
+receiver's *own* label as associated data - also when the inbound header check is delegated to an outer
+layer (then no header may be carried, and the associated data must still be the receiver's label). -/
+theorem C14_sealed_stream_needs_own_label (cfgLabel carried aad : Bytes) (skip key : Bool)
+    (h : sealedStreamAdmitted cfgLabel skip carried aad key = true) :
+    key = true ∧ aad = cfgLabel ∧ (if skip then carried = [] else carried = cfgLabel) := by
+  unfold sealedStreamAdmitted at h
+  cases hg : labelGate cfgLabel skip carried with
+  | none => simp [hg] at h
+  | some l =>
+    have hl := C16_gate_yields_own_label cfgLabel carried l skip hg
+    simp [hg] at h
+    refine ⟨h.1, by rw [← h.2, hl], ?_⟩
+    have := C16_label_accept_iff cfgLabel carried skip
+    rw [hg] at this
+    cases skip <;> simp_all
+
+/-- a sender that seals with its own label and carries it as header is admitted exactly by receivers with
+that label that check it themselves (or, with no label at all, by label-less receivers) -/
+theorem C09_honest_sender_admitted_iff (cfgLabel senderLabel : Bytes) (skip : Bool) :
+    sealedStreamAdmitted cfgLabel skip senderLabel senderLabel true =
+      (if skip then senderLabel.isEmpty && cfgLabel.isEmpty else cfgLabel == senderLabel) := by
+  unfold sealedStreamAdmitted labelGate
+  cases skip <;> simp
+  · split <;> simp_all
+  · cases senderLabel <;> cases cfgLabel <;> simp
+
 /-- labels that are prefixes/extensions of each other are different labels -/
 example : labelGate [1, 2] false [1, 2, 3] = none ∧ labelGate [1, 2, 3] false [1, 2] = none ∧
     labelGate [1, 2] false [1, 2] = some [1, 2] := by decide
